@@ -268,3 +268,36 @@ func isSuccessReturn(ret *ssa.Return) bool {
 	}
 	return isNilConst(retValue(ret, n-1))
 }
+
+// mayBeSuccessReturn: the error result is nil, or the result of a call that may return nil (anything but
+// fmt.Errorf / errors.New) and the return is not on the branch where that result was found non-nil.
+func mayBeSuccessReturn(fn *ssa.Function, ret *ssa.Return) bool {
+	n := len(ret.Results)
+	if n == 0 {
+		return true
+	}
+	if !isErrorType(ret.Results[n-1].Type()) {
+		return true
+	}
+	v := retValue(ret, n-1)
+	if isNilConst(v) {
+		return true
+	}
+	c := callValue(v)
+	if c == nil {
+		return false
+	}
+	switch calleeName(&c.Call) {
+	case "fmt.Errorf", "errors.New", "errors.Join":
+		return false
+	}
+	nonNil := false
+	factEdges(fn, func(e Edge, f Fact) {
+		if f.Kind == "nil" && !f.Holds && callValue(f.V) == c {
+			if (e.To == ret.Block() && len(ret.Block().Preds) == 1) || edgeDominates(fn, e, ret.Block()) {
+				nonNil = true
+			}
+		}
+	})
+	return !nonNil
+}
